@@ -25,12 +25,16 @@ ALLOWED_AXIOMS = {
 TRUSTED = [
     "translator/temporal.py + translator/pyexpr.py (lambdas of series/_temporal.py -> gen/TemporalGen.v)",
     "numpy log/exp/power are black boxes: their values are recorded per run and looked up by the float model",
-    "the loops temporal_change/_cumulate_forward/_cumulate_backward are hand-modelled (model/Temporal.v) on the "
-    "Series model (model/Series.v) and tied by bit-exact correspondence only",
+    "the loops temporal_change/_cumulate_forward/_cumulate_backward are hand-modelled (model/Temporal.v; model/TemporalKw.v for "
+    "keyword shifts of every frequency class incl. daily) on the Series model (model/Series.v) and tied by bit-exact correspondence only",
+    "translator/dates.py (gen/DatesGen.v: the daily create_soy/create_eopy/create_tty fragments and the 'yoy' arm used by model/TemporalKw.v)",
 ]
 ASSUMPTIONS = [
     "theorems are over Coq's real numbers (no rounding); the float model is used only for the correspondence",
-    "keyword shifts soy/eopy/tty are exercised for regular frequencies only (daily keyword shifts belong to C09)",
+    "keyword shifts on DAILY series: the reference day comes from gen/DatesGen.v (DailyPeriod.create_soy/eopy/tty, the 'yoy' arm of "
+    "Period.shift, regenerated from dates.py) over lib/Calendar.v, whose agreement with CPython's datetime is C09's tie; "
+    "ordinals outside 1..3652059 (the code raises) are modelled as an error and not exercised by the correspondence",
+    "C13_kw_cum_forward_inverts carries the explicit premise s_freq c = s_freq x (the change series is not empty)",
 ]
 
 MANIFEST = {
@@ -39,11 +43,14 @@ MANIFEST = {
                   "formulas; the five rate helpers invert/relate them; forward and backward cumulation of diff/diff_log/pct/roc with the "
                   "original series as initial condition reproduce the series for EVERY negative shift, series length, start, number of "
                   "variants (induction over the span on the Series model, proved for every carrier with lawful missing values and "
-                  "instantiated on Coq's reals).  The loops and the Series plumbing are hand-modelled and tied to the code by a "
+                  "instantiated on Coq's reals).  Keyword shifts yoy/soy/eopy/tty for every frequency class, DAILY included: the documented "
+                  "reference day (1 January, 31 December of the previous year, the previous day except on 1 January, 365 days back), the "
+                  "change formulas against these references, the unchanged start-of-year value of diff/roc with tty, and forward "
+                  "cumulation with a keyword shift reproducing the series on any span (any number of leap/common years).  The loops and the Series plumbing are hand-modelled and tied to the code by a "
                   "bit-exact correspondence (IEEE doubles through PrimFloat; numpy log/exp/power recorded as tables).",
     "level_note": "Trusted: Coq kernel + vm_compute; translator/temporal.py; harness; Reals axioms (sig_forall_dec, sig_not_dec, "
                   "functional_extensionality_dep, classic). Modelled not verified: numpy ufuncs (recorded), float rounding "
-                  "(theorems are exact over R), keyword shifts of daily series (C09).",
+                  "(theorems are exact over R); lib/Calendar.v vs CPython datetime (tied by C09).",
 }
 
 CHANGE = ["diff", "adiff", "diff_log", "adiff_log", "roc", "aroc", "pct", "apct"]
